@@ -133,6 +133,8 @@ def actorOpenField (a : Actor) (handle : Nat) : Res × Option (Unit ⊕ Nat) :=
 
 structure St where
   globals : List Bp
+  /-- the faucet's `free` was already called in this transaction (a second call aborts it) -/
+  faucetUsed : Bool
   /-- effect log: (actor, effect) in execution order -/
   log : List (Actor × String × Kind)
 
@@ -164,7 +166,7 @@ structure Out where
 Ops: `1 bp` NEW · `2 r` DROP · `3 pkg bp` ALLOC · `4 r res` GLOBALIZE (`res = 255`: none) ·
 `5 handle mode` FIELD · `6 kind idx n args.. len script..` CALL METHOD (kind 0: object in register
 idx, 1: global #idx) · `7 pkg bp n args.. len script..` CALL FUNCTION `run` · `8` BUCKET (from the
-faucet) · `9 r` PROOF of the bucket in r · `11 r` Proof::drop.  Returns the remaining registers
+faucet, which serves one request per transaction: a second one aborts) · `9 r` PROOF of the bucket in r · `11 r` Proof::drop.  Returns the remaining registers
 (proofs are dropped at frame exit).  `fatal` = the transaction aborted. -/
 def exec : Nat → Actor → Regs → List Nat → St → Out
   | 0, _, regs, _, st => ⟨st, regs, [.refused], true⟩
@@ -202,7 +204,7 @@ def exec : Nat → Actor → Regs → List Nat → St → Out
             | .obj b _ =>
               let regs' := if j = 255 then clearReg regs i else clearReg (clearReg regs i) j
               let o := exec fuel a regs' rest
-                { globals := st.globals ++ [b], log := st.log ++ [(a, "globalize", k)] }
+                { st with globals := st.globals ++ [b], log := st.log ++ [(a, "globalize", k)] }
               { o with trace := r :: o.trace }
             | _ => ⟨st, regs, [.refused], true⟩
           else ⟨st, regs, [r], true⟩
@@ -261,8 +263,11 @@ def exec : Nat → Actor → Regs → List Nat → St → Out
               let o := exec fuel a (regs' ++ back) rest3 c.st
               { o with trace := c.trace ++ .ok :: o.trace }
     | 8 :: rest =>
-      let o := exec fuel a (regs ++ [some (.obj bucketBp (some resOuter))]) rest st
-      { o with trace := .ok :: o.trace }
+      if st.faucetUsed then ⟨st, regs, [], true⟩
+      else
+        let o := exec fuel a (regs ++ [some (.obj bucketBp (some resOuter))]) rest
+          { st with faucetUsed := true }
+        { o with trace := .ok :: o.trace }
     | 9 :: i :: rest =>
       match getReg regs i with
       | some (.obj bp _) =>
@@ -285,6 +290,6 @@ def exec : Nat → Actor → Regs → List Nat → St → Out
     | _ => ⟨st, regs, [.refused], true⟩
 
 def runScript (pkg name : Nat) (script : List Nat) : Out :=
-  exec (script.length + 1) (.func ⟨pkg, name⟩) [] script { globals := initGlobals, log := [] }
+  exec (script.length + 1) (.func ⟨pkg, name⟩) [] script { globals := initGlobals, faucetUsed := false, log := [] }
 
 end Radix.Encap
